@@ -1,12 +1,18 @@
-/- Driver stream `c19`: the validity model on the harness's request lines.
+/- Driver stream `c19`: the validity model on the harness's request lines. The request carries the RAW transaction: the
+   bytes the hash-based sub-checks read (Upload root / proof set / index, Create salt / slots / output ids, Blob id, Upgrade
+   checksum, the data of every witness); the verdicts are computed HERE through `Raw.toTx sha256` (Model/ValidityCompose.lean:
+   `BMT.verify`, `Ids.CreateMetadata.compute`, SHA-256), not taken from the harness.
 
   chk <height> <13 limits> <factor> <gas_per_byte> <eck1> <s256> <contract_root> <state_root> <vm_init> <nspb> <base asset> <privileged>
-      <body> <size> <tip> <witness limit> <maturity> <max fee> <expiration> <owner> <n> <input>*n <m> <output>*m <k> <witness len>*k
+      <body> <size> <tip> <witness limit> <maturity> <max fee> <expiration> <owner> <n> <input>*n <m> <output>*m <k> <witness data hex>*k
+      body = script:<gas>:<len>:<len> | create:<bwi>:<salt>:<key=value,..|-> | upgc:<wi>:<checksum>:<deserialises 0|1> | upgs
+           | upload:<wi>:<n>:<root>:<proof,..|->:<index> | blob:<wi>:<blob id>;   output cc:<contract id>:<state root>
       => ok <min_gas> <max_gas> <retryable> <asset>=<amount>,.. (sorted) | err <ValidityError variant> | panic <site>
   mint <height> <max size> <base asset> <size> <tx pointer height> <output input index> <mint asset>  => ok | err <variant>
 -/
 import FuelVerif.Basic.Loop
-import FuelVerif.Model.Validity
+import FuelVerif.Basic.Sha256
+import FuelVerif.Model.ValidityCompose
 import FuelVerif.Drv.C18
 namespace FuelVerif.Drv.C19
 open FuelVerif FuelVerif.Fee FuelVerif.Validity
@@ -28,25 +34,32 @@ def parseInput (s : String) : Option Input :=
     pure (.messageDataPredicate (← hexNat n) (← hexNat r) (← amt.toNat?) (← dl.toNat?) (← pl.toNat?) (← pdl.toNat?) (← g.toNat?))
   | _ => none
 
-def parseOutput (s : String) : Option Output :=
+def parseOutput (s : String) : Option ROutput :=
   match s.splitOn ":" with
-  | ["coin", a, amt] => do pure (.coin (← hexNat a) (← amt.toNat?))
-  | ["contract", i] => do pure (.contract (← i.toNat?))
-  | ["change", a] => do pure (.change (← hexNat a))
-  | ["variable"] => some .variable
-  | ["cc", b] => do pure (.contractCreated (← bit b))
+  | ["coin", a, amt] => do pure (.plain (.coin (← hexNat a) (← amt.toNat?)))
+  | ["contract", i] => do pure (.plain (.contract (← i.toNat?)))
+  | ["change", a] => do pure (.plain (.change (← hexNat a)))
+  | ["variable"] => some (.plain .variable)
+  | ["cc", c, r] => do pure (.contractCreated (← ofHex c) (← ofHex r))
   | _ => none
 
-def parseBody (s : String) : Option Body :=
+def hexList (s : String) : Option (List Bytes) := if s == "-" then some [] else (s.splitOn ",").mapM ofHex
+
+def parseSlot (s : String) : Option Ids.Slot :=
+  match s.splitOn "=" with
+  | [k, v] => do pure (← ofHex k, ← ofHex v)
+  | _ => none
+
+def parseBody (s : String) : Option RBody :=
   match s.splitOn ":" with
   | ["script", g, sl, sdl] => do pure (.script (← g.toNat?) (← sl.toNat?) (← sdl.toNat?))
-  | ["create", bwi, keys] => do
-    let ks ← if keys == "-" then some [] else (keys.splitOn ",").mapM hexNat
-    pure (.create (← bwi.toNat?) ks)
-  | ["upgc", wi, c, d] => do pure (.upgradeConsensus (← wi.toNat?) (← bit c) (← bit d))
+  | ["create", bwi, salt, slots] => do
+    let ss ← if slots == "-" then some [] else (slots.splitOn ",").mapM parseSlot
+    pure (.create (← bwi.toNat?) (← ofHex salt) ss)
+  | ["upgc", wi, c, d] => do pure (.upgradeConsensus (← wi.toNat?) (← ofHex c) (← bit d))
   | ["upgs"] => some .upgradeState
-  | ["upload", wi, n, ok] => do pure (.upload (← wi.toNat?) (← n.toNat?) (← bit ok))
-  | ["blob", wi, ok] => do pure (.blob (← wi.toNat?) (← bit ok))
+  | ["upload", wi, n, root, proof, idx] => do pure (.upload (← wi.toNat?) (← n.toNat?) (← ofHex root) (← hexList proof) (← idx.toNat?))
+  | ["blob", wi, id] => do pure (.blob (← wi.toNat?) (← ofHex id))
   | _ => none
 
 /-- `n` followed by `n` items -/
@@ -73,13 +86,13 @@ def parseParams : List String → Option (Params × List String)
     pure (p, rest)
   | _ => none
 
-def parseTx : List String → Option Tx
+def parseTx : List String → Option Raw
   | body :: size :: tip :: wl :: mat :: mf :: exp :: own :: rest => do
     let pol : Policies := { tip := ← C18.parseOpt tip, witnessLimit := ← C18.parseOpt wl, maturity := ← C18.parseOpt mat,
                             maxFee := ← C18.parseOpt mf, expiration := ← C18.parseOpt exp, owner := ← C18.parseOpt own }
     let (inputs, rest) ← takeList parseInput rest
     let (outputs, rest) ← takeList parseOutput rest
-    let (witnesses, rest) ← takeList (·.toNat?) rest
+    let (witnesses, rest) ← takeList ofHex rest
     if !rest.isEmpty then none
     else pure { body := ← parseBody body, size := ← size.toNat?, policies := pol, inputs, outputs, witnesses }
   | _ => none
@@ -106,7 +119,8 @@ def handle : List String → String
     | some h, some (p, rest) =>
       match parseTx rest with
       | none => "bad-op"
-      | some tx => showR (fun c => s!"ok {c.minGas} {c.maxGas} {c.balances.retryable} {showBalances c.balances.nonRetryable}") (check p h tx)
+      | some raw => showR (fun c => s!"ok {c.minGas} {c.maxGas} {c.balances.retryable} {showBalances c.balances.nonRetryable}")
+          (checkRaw Sha256.sha256 p h raw)
     | _, _ => "bad-op"
   | ["mint", height, maxSize, base, size, ptr, idx, asset] =>
     match height.toNat?, maxSize.toNat?, hexNat base, size.toNat?, ptr.toNat?, idx.toNat?, hexNat asset with
